@@ -60,6 +60,8 @@ let string_of_z (v : z) : string =
   | Z0 -> "0"
   | Zneg p -> "-" ^ go (Zpos p) ""
   | _ -> go v ""
+let n_of_int (i : int) : n = if i = 0 then N0 else Npos (pos_of_int i)
+let int_of_n = function N0 -> 0 | Npos p -> int_of_pos p
 let zi s = z_of_string (atom s)
 let ni s = nat_of_int (int_of_string (atom s))
 let bi s = match atom s with "1" | "true" -> true | _ -> false
